@@ -48,9 +48,9 @@ NA = {
  "C01": "acceptance is decided by regex::Regex on text produced by encode; Kani's compiler crashes (ICE on const_format constants) on any harness that reaches encode, Verus rejects its closures/macros, and a semantic contract would need a verified regex semantics; the parser is a nest of nom closures (DESIGN §5 C01)",
  "C02": "needs a directory tree, walkdir, compiled regexes and a regex-language inclusion; the component-alignment arithmetic sits in a closure and in std::path calls (symbolic depth: no result in 7 min); DirEntry cannot be constructed without a file system",
  "C03": "the equivalence pruning = per-entry filtering is C09 at tree level composed with two compiled regexes and a file system; its reachable kernels (residue -> cancellation, forwarding through Not) are decided under C13/C16/C20",
- "C04": "capture extents are the regex engine's; the group/token correspondence is a property of encode (see C01); Glob::captures needs a compiled Regex",
+ "C04": "capture extents are the regex engine's; the group/token correspondence is a property of encode (see C01); what is reachable -- Glob::captures numbering exactly the capturing top-level tokens with their own spans, OwnedText::get -- is decided under C17 / C19",
  "C07": "each law is an equation between the languages of two outputs of encode (see C01)",
- "C08": "partition / invariant_text_prefix run through the generic fold driver and Text; Glob::partition recompiles a regex; only the un-rooting span arithmetic is reachable and is decided under C17",
+ "C08": "partition / invariant_text_prefix run through the generic fold driver and Text; Glob::partition recompiles a regex; measured again in the second round: the body of Tokenized::partition gives no verdict even with invariant_text_prefix, pop_prefix_tokens_with and fold_map replaced by stubs of their contracts (DESIGN 11.9); only the un-rooting span arithmetic and the nested pop_expression_bytes are reachable and are decided under C17",
  "C14": "entry types wrap walkdir::DirEntry (constructed only by reading a directory); join_and_get_depth / split_at_depth are std::path computations (symbolic: no result in 7 min; concrete: a test, not a proof)",
 }
 checks = []
